@@ -81,8 +81,19 @@ def _rust_consts(ctx) -> None:
     try:
         rc = rustconst.load()
     except core.Unsupported as e:
-        ctx.unverified("TABLES.py-rs", "constants.rs", str(e), "rust/src/constants.rs")
-        return
+        # a constant that is not a literal (a table derived by a const fn): its value is what its MIR body computes
+        try:
+            from .. import mirexec
+            rc = dict(rustconst.load(strict=False))
+            mir = mirfront.load()
+            names = re.findall(r"^pub const (\w+)\s*:", (core.REPO / "rust/src/constants.rs").read_text(), re.M)
+            tup = lambda v: tuple(tup(x) for x in v) if isinstance(v, list) else v      # noqa: E731
+            for nm in names:
+                if nm not in rc:
+                    rc[nm] = tup(mirexec.Machine(mir, {}).const(f"constants::{nm}"))
+        except (core.Unsupported, core.AnchorMissing, mirfront.MirUnavailable, mirexec.Panic, KeyError, TypeError, ValueError, IndexError) as e2:
+            ctx.unverified("TABLES.py-rs", "constants.rs", f"{e}; and its MIR body is outside the evaluator: {e2}", "rust/src/constants.rs")
+            return
     n = 0
     for name, rv in rc.items():
         try:
@@ -669,6 +680,7 @@ def _rs_prim_tabulate(ctx, mir) -> None:
     import calendar
     import datetime as _dt
     import math
+    from .. import mirexec
     from ..rules import minieval
     if mir is None:
         return
@@ -736,9 +748,17 @@ def _rs_prim_tabulate(ctx, mir) -> None:
         short = nm.split("::")[-1]
         bad, n = [], 0
         try:
+            fn_mir = mir.fn(nm)
+            use_exec = False
             for args in cases:
                 n += 1
-                got = rs(nm, *args)
+                if not use_exec:
+                    try:
+                        got = rs(nm, *args)          # the symbolic path summaries of the function (fast) ...
+                    except (core.Unsupported, KeyError):
+                        use_exec = True              # ... or, outside them (closures, iterator adaptors), its MIR evaluated block by block
+                if use_exec:
+                    got = mirexec.Machine(mir, sf).run(fn_mir, list(args))
                 w = want(*args)
                 if got != w:
                     bad.append(f"{short}{args} = {got!r} (expected {w!r})")
@@ -750,7 +770,6 @@ def _rs_prim_tabulate(ctx, mir) -> None:
             ctx.established(("SIBLING", "FORMULA"), f"py-vs-rs:{short}", "RSPRIM.tabulated + PRIM.tabulated")
             ctx.established(("SIBLING", "FORMULA"), f"rs:{short}", "RSPRIM.tabulated")
     # local_time has loops: its MIR is evaluated block by block (pvs/mirexec.py) on the timestamps of PRIM.tabulated
-    from .. import mirexec
     cases, want = _local_time_cases(deep)
     if not deep:
         cases = cases[:-60:4] + cases[-60:]          # quick tier: a quarter of the year-boundary cases, all the special ones
